@@ -13,7 +13,8 @@ Three layers (see notes/C14.md):
   5. if an obligation is broken and 3./4. found nothing on the standard families: an oracle-only sweep of a
      deeper domain (deep_families) to turn the breakage into a concrete failing input.
 """
-import itertools, math, os, sys
+import itertools, math, os, re, sys
+from fractions import Fraction
 import numpy as np
 from vlib import coqterm as ct
 
@@ -65,10 +66,13 @@ def custom_form(d):
 def custom_array(d):
     """the matrix object handed to CustomizedLattice: d[2] (rows of numbers) in the dtype / memory layout d[3]
     int (default) | float | bool (non-zero pattern) | complex (v -> v*1j: purely imaginary weights) | F (Fortran order) |
-    strided (every second row/column of a larger array) | int8"""
+    strided (every second row/column of a larger array) | int8 | w:<dtype>:<layout> (exact hex-float / Fraction / complex entries of any
+    magnitude, see weight_array)"""
     form = custom_form(d)
     rows = d[2]
     n = len(rows)
+    if form.startswith("w:"):
+        return weight_array(d)
     if form == "float":
         return np.array(rows, dtype=float).reshape(n, -1)
     if form == "complex":
@@ -87,9 +91,143 @@ def custom_array(d):
     return M
 
 
+# ----------------------------------------------------------------------------- weighted matrices with exact entries
+# form "w:<dtype>:<layout>" of a customised-lattice descriptor: d[2] holds EXACT entries
+#   int                      a Python integer
+#   "0x1p-30", "-0x0.0p+0", "0x0.0000000000001p-1022", "0x1p-5000", "inf"
+#                            a hexadecimal float (float.hex syntax, the exponent is not limited to binary64) / an infinity;
+#                            the sign of a zero is kept
+#   [re, im]                 a complex number, both parts as above
+# dtype  float64 | float32 | float16 | longdouble | complex128 | complex64 | object (Fraction / Python int / -0.0 / inf objects)
+# layout C | F (Fortran order) | T (transposed view of a C array) | list (nested list of scalars)
+# Every entry must be representable in the dtype WITHOUT rounding (checked: BadDescriptor), so that the non-zero pattern of what
+# the constructor receives is the pattern of the exact values, computed in Python (w_nonzero) without any float comparison.
+W_DTYPES = {"float64": np.float64, "float32": np.float32, "float16": np.float16, "longdouble": np.longdouble,
+            "complex128": np.complex128, "complex64": np.complex64, "object": object}
+_HEXF = re.compile(r"^([+-]?)0x([0-9a-f]+)(?:\.([0-9a-f]*))?p([+-]?[0-9]+)$")
+
+
+class BadDescriptor(Exception):
+    pass
+
+
+def w_exact(e):
+    """real entry -> (sign bit, exact value as Fraction, or "inf")"""
+    if isinstance(e, bool) or isinstance(e, float):
+        raise BadDescriptor("entry %r: int or hex-float string expected" % (e,))
+    if isinstance(e, int):
+        return e < 0, Fraction(e)
+    if e in ("inf", "-inf"):
+        return e[0] == "-", "inf"
+    m = _HEXF.match(e)
+    if not m:
+        raise BadDescriptor("entry %r" % (e,))
+    sign, ip, fp, ex = m.groups()
+    fp = fp or ""
+    v = Fraction(int(ip + fp, 16)) * Fraction(2) ** (int(ex) - 4 * len(fp))
+    return sign == "-", (-v if sign == "-" else v)
+
+
+def w_nonzero(e):
+    """whether the exact entry is a coupling (anything but +-0)"""
+    if isinstance(e, list):
+        return any(w_nonzero(x) for x in e)
+    v = w_exact(e)[1]
+    return v == "inf" or v != 0
+
+
+def w_neg(e):
+    if isinstance(e, list):
+        return [w_neg(x) for x in e]
+    if isinstance(e, int):
+        return -e if e else "-0x0.0p+0"
+    return e[1:] if e.startswith("-") else "-" + e
+
+
+def w_conj(e):
+    return [e[0], w_neg(e[1])]
+
+
+def _odd_exp(v):
+    """positive dyadic Fraction -> (odd, e) with v = odd * 2^e"""
+    num, den = v.numerator, v.denominator
+    if den & (den - 1):
+        raise BadDescriptor("not dyadic")
+    if den > 1:
+        return num, -(den.bit_length() - 1)
+    tz = (num & -num).bit_length() - 1
+    return num >> tz, tz
+
+
+def w_scalar(e, dt):
+    """the exact real entry as a scalar of the dtype; BadDescriptor if that needs rounding"""
+    neg, v = w_exact(e)
+    if dt == "object":
+        if v == "inf":
+            return -math.inf if neg else math.inf
+        if v == 0:
+            return -0.0 if neg else 0
+        return int(v) if v.denominator == 1 else v
+    typ = {"complex128": np.float64, "complex64": np.float32}.get(dt) or W_DTYPES[dt]
+    if v == "inf":
+        x = typ("inf")
+    elif v == 0:
+        x = typ(0)
+    else:
+        odd, ex = _odd_exp(abs(v))
+        if odd >= 2 ** 53:
+            raise BadDescriptor("mantissa too long")
+        with np.errstate(all="ignore"):
+            x = np.ldexp(typ(float(odd)), ex)
+        if not np.isfinite(x) or Fraction(*x.as_integer_ratio()) != abs(v):
+            raise BadDescriptor("entry %r is not representable in %s" % (e, dt))
+    return -x if neg else x
+
+
+def w_parse_form(form):
+    parts = form.split(":")
+    if len(parts) != 3 or parts[0] != "w" or parts[1] not in W_DTYPES or parts[2] not in ("C", "F", "T", "list"):
+        raise BadDescriptor("form %r" % form)
+    return parts[1], parts[2]
+
+
+def weight_array(d):
+    """the object handed to CustomizedLattice for a "w:<dtype>:<layout>" descriptor"""
+    dt, layout = w_parse_form(d[3])
+    rows = d[2]
+    n = len(rows)
+    cplx = dt.startswith("complex")
+    A = np.zeros((n, n), dtype=W_DTYPES[dt])
+    for i, r in enumerate(rows):
+        if len(r) != n:
+            raise BadDescriptor("not square")
+        for j, e in enumerate(r):
+            if cplx:
+                re_, im_ = e if isinstance(e, list) else (e, 0)
+                a, b = w_scalar(re_, dt), w_scalar(im_, dt)
+                A[i, j] = W_DTYPES[dt](0)
+                A.real[i, j] = a
+                A.imag[i, j] = b
+            elif isinstance(e, list):
+                raise BadDescriptor("complex entry in a real dtype")
+            else:
+                A[i, j] = w_scalar(e, dt)
+    if layout == "F":
+        return np.asfortranarray(A)
+    if layout == "T":
+        return np.ascontiguousarray(A.T).T
+    if layout == "list":
+        if dt in ("float64", "complex128", "object"):
+            return A.tolist()                                  # Python floats / complex / the objects themselves
+        return [[A[i, j] for j in range(n)] for i in range(n)]  # numpy scalars of the dtype
+    return A
+
+
 def custom_pattern(d):
     """non-zero pattern (bool array) of the given matrix, independent of the form"""
     n = len(d[2])
+    if custom_form(d).startswith("w:"):
+        return np.array([[w_nonzero(e) for e in r] for r in d[2]], dtype=bool).reshape(n, -1)
     return np.array(d[2], dtype=float).reshape(n, -1) != 0
 
 
@@ -97,7 +235,7 @@ def custom_int_rows(d):
     """the matrix as exact integers for the Coq model (sign, zero-ness, symmetry and cancellation preserved): float entries are
     multiples of 1/4 and are scaled by 4; bool = pattern; None when the form has no exact integer reading (complex)"""
     form = custom_form(d)
-    if form == "complex":
+    if form == "complex" or form.startswith("w:"):
         return None
     if form == "float":
         out = [[4 * float(v) for v in r] for r in d[2]]
@@ -738,6 +876,166 @@ def custom_families(rng, T):
     return out
 
 
+# ----------------------------------------------------------------------------- weight magnitude as a generator dimension
+SUB64 = "0x0.0000000000001p-1022"          # 5e-324, the smallest binary64 subnormal
+W_MAGS = {
+    # tiny ... huge, per dtype (all exactly representable there); 3e-10 / 2e-9 / 2^-27 lie just below numpy's default atol 1e-8
+    "float64": ["0x1p-30", "0x1.49da7e361ce4cp-32", "0x1.12e0be826d695p-29", "0x1p-27", "0x1p-60", "0x1p-200", "0x1p-1000", "0x1p-1022",
+                SUB64, "0x1p+100", "0x1p+1000", "0x1.fffffffffffffp+1023", "inf"],
+    "float32": ["0x1p-30", "0x1p-60", "0x1p-126", "0x1p-149", "0x1p+100", "0x1.fffffep+127", "inf"],
+    "float16": ["0x1p-14", "0x1p-24", "0x3p-24", "0x1.ffcp+15", "inf"],
+    "longdouble": ["0x1p-30", "0x1p-200", SUB64, "0x1p+1000"],
+    "complex128": [[0, "0x1p-30"], [0, "0x1p-60"], [0, SUB64], ["0x1p-200", 0], ["0x1p-60", "-0x1p-60"], [1, "0x1p-60"], [0, "0x1p+1000"]],
+    "complex64": [[0, "0x1p-30"], [0, "0x1p-149"], ["0x1p-126", 0], [1, "0x1p-100"], [0, "0x1p+100"]],
+    "object": ["0x1p-30", "0x3p-70", "0x1p-1074", "0x1p-2000", "0x1p+100", "0x1p+1000", "0x1p+2000"],
+}
+W_HUGE = {"float64": "0x1p+1000", "float32": "0x1p+100", "float16": "0x1p+15", "longdouble": "0x1p+1000", "complex128": "0x1p+1000",
+          "complex64": "0x1p+100", "object": "0x1p+1000"}
+W_VARIANTS = ["one-sided", "one-sided-negzero", "sign-flip", "unequal-unit", "unequal-other", "symmetric", "diag", "diag-cancel", "negzero"]
+W_VARIANTS_C = ["conj-pair", "imag-one-sided"]
+W_CONTEXTS = ["zero", "unit", "huge", "same"]
+W_SHAPES = [(2,), (4,), (3,), (2, 2), (2, 3), (1, 2, 2), (5,)]
+
+
+def w_mags(dt):
+    mags = list(W_MAGS[dt])
+    if dt == "longdouble" and np.finfo(np.longdouble).machep == -63:
+        # x87 extended precision: magnitudes far beyond the binary64 range, the smallest extended subnormal
+        mags += ["0x1p-1074", "0x1p-5000", "0x1p-16445", "0x1p+5000"]
+    return mags
+
+
+def weight_matrix(rng, n, w, variant, context, dt, other):
+    """rows of exact entries: a symmetric context (no other couplings / O(1) weights / huge weights / the magnitude itself), with the
+    entry w of the magnitude under test placed according to `variant`"""
+    M = [[0] * n for _ in range(n)]
+    cw = {"zero": [0], "unit": [1, -1, 2, -3, 0], "huge": [W_HUGE[dt], w_neg(W_HUGE[dt]), 0], "same": [w, w_neg(w), 0]}[context]
+    for i in range(n):
+        for j in range(i + 1, n):
+            M[i][j] = M[j][i] = rng.choice(cw)
+    if n >= 2:
+        i, j = rng.sample(range(n), 2)
+    else:
+        i = j = 0
+    k = rng.randrange(n)
+    if variant == "one-sided":               # the transposed entry is exactly 0
+        M[i][j], M[j][i] = w, 0
+    elif variant == "one-sided-negzero":     # ... is -0.0
+        M[i][j], M[j][i] = w, "-0x0.0p+0"
+    elif variant == "sign-flip":
+        M[i][j], M[j][i] = w, w_neg(w)
+    elif variant == "unequal-unit":          # 1 against the magnitude: the pattern is symmetric
+        M[i][j], M[j][i] = w, 1
+    elif variant == "unequal-other":         # two different magnitudes
+        M[i][j], M[j][i] = w, other
+    elif variant == "symmetric":
+        M[i][j] = M[j][i] = w
+    elif variant == "diag":                  # a coupling of that magnitude on the diagonal
+        M[k][k] = w
+    elif variant == "diag-cancel":           # +w and -w on the diagonal
+        M[i][i], M[j][j] = w, w_neg(w)
+    elif variant == "negzero":               # -0.0 on the diagonal and against +0: no link, no diagonal entry
+        M[i][j] = M[j][i] = w
+        for a in range(n):
+            if rng.random() < 0.6:
+                M[a][a] = "-0x0.0p+0"
+        if n >= 3:
+            a, b = rng.choice([(a, b) for a in range(n) for b in range(n) if a != b and {a, b} != {i, j}])
+            M[a][b], M[b][a] = "-0x0.0p+0", rng.choice([0, "-0x0.0p+0"])
+        else:
+            M[k][k] = "-0x0.0p+0"
+    elif variant == "conj-pair":             # w against its complex conjugate
+        M[i][j], M[j][i] = w, w_conj(w)
+    elif variant == "imag-one-sided":        # the two directions differ only by the (tiny) imaginary part: real part 1 / 0
+        re_ = rng.choice([0, 1])
+        M[i][j], M[j][i] = [re_, w[1] if w_nonzero(w[1]) else w[0]], re_
+    else:
+        raise ValueError(variant)
+    if n < 2 and variant not in ("diag", "negzero"):
+        return None
+    return M
+
+
+def weight_families(rng, T):
+    """WEIGHT MAGNITUDE as a generator dimension for customised lattices: (variant, descriptor) pairs, descriptor form "w:<dtype>:<layout>".
+    Entries from the smallest subnormal to the largest finite number and inf of every float dtype (and beyond the binary64 range for
+    extended precision and Fraction / Python int objects), complex numbers with a tiny imaginary part; one-sided (transposed entry
+    exactly 0 or -0.0), sign-flipped, against 1, against another magnitude, symmetric, on the diagonal (alone / cancelling), -0.0; in a
+    context of no / O(1) / huge / equally tiny symmetric couplings; C / Fortran / transposed-view arrays and nested lists.
+    float64: the full product magnitude x variant x context; the other dtypes: magnitude x variant with the context rotating
+    (thorough: the full product everywhere)."""
+    out = []
+    k = 0
+    for dt in W_DTYPES:
+        mags = w_mags(dt)
+        variants = W_VARIANTS + (W_VARIANTS_C if dt.startswith("complex") else [])
+        for mi, w in enumerate(mags):
+            other = mags[(mi + 1) % len(mags)]
+            if other == "inf" or w == "inf":
+                other = mags[0] if w != mags[0] else mags[1]
+            for vi, variant in enumerate(variants):
+                ctxs = W_CONTEXTS if (T or dt == "float64") else [W_CONTEXTS[(mi + vi) % len(W_CONTEXTS)]]
+                for context in ctxs:
+                    k += 1
+                    sh = W_SHAPES[k % len(W_SHAPES)]
+                    n = int(np.prod(sh))
+                    M = weight_matrix(rng, n, w, variant, context, dt, other)
+                    if M is None:
+                        continue
+                    layout = ("C", "F", "C", "T", "C")[k % 5]
+                    out.append((variant, ["custom", list(sh), M, "w:%s:%s" % (dt, layout)]))
+        # one site: a tiny diagonal entry / -0.0 is the whole matrix
+        out.append(("diag", ["custom", [1], [[mags[1]]], "w:%s:C" % dt]))
+        out.append(("negzero", ["custom", [1, 1], [["-0x0.0p+0"]], "w:%s:C" % dt]))
+        # nested lists of scalars of that dtype (Python floats / complex / Fraction objects, numpy scalars)
+        for variant in ("symmetric", "one-sided", "diag", "unequal-unit"):
+            M = weight_matrix(rng, 3, mags[0], variant, "unit", dt, mags[1])
+            out.append((variant, ["custom", [3], M, "w:%s:list" % dt]))
+    return out
+
+
+def weight_sweep(ctx):
+    """every lattice of weight_families through the oracle (0/1, symmetric, zero diagonal, ones = the exact non-zero pattern of the
+    given couplings) and, when accepted, the history oracle.  The constructor may refuse (counted); what it accepts must pass."""
+    nall = nacc = 0
+    for variant, d in weight_families(ctx.rng, ctx.thorough):
+        weight_array(d)                     # descriptor self-check: every entry exact in its dtype (BadDescriptor = generator bug)
+        dt, layout = w_parse_form(d[3])
+        P = custom_pattern(d)
+        valid = bool(np.array_equal(P, P.T) and not P.diagonal().any())
+        nall += 1
+        ctx.count("weights:dtype=" + dt)
+        ctx.count("weights:layout=" + layout)
+        hits = []
+
+        def fail(sig, *a):
+            hits.append(sig)
+            ctx.fail(sig, *a)
+        res = oracle(ctx, d, fail=fail)
+        if res is None:
+            try:
+                build(d)
+                continue                    # constructed, adjacency_matrix() failed: reported by the oracle
+            except Exception as e:
+                ctx.count("weights:%s:refused" % variant)
+                if not isinstance(e, ValueError):
+                    ctx.count("weights:refused-with-%s:layout=%s" % (type(e).__name__, layout))
+                if valid:
+                    ctx.count("CustomizedLattice:refused-a-symmetric-zero-diagonal-matrix" + (":nested-list" if layout == "list" else ""))
+            continue
+        nacc += 1
+        ctx.count("weights:%s:accepted" % variant)
+        if not valid and not hits:
+            # cannot happen while the oracle compares with the exact pattern; kept as a safety net
+            ctx.fail("CustomizedLattice:accepted-a-matrix-whose-nonzero-pattern-is-not-symmetric-with-zero-diagonal", {"lattice": d},
+                     "ValueError", "a lattice")
+        history_oracle(ctx, d)
+        ctx.evaluations += 1
+        ctx.nontriv({"lattice": d, "op": "oracle (weights)"})
+    ctx.count("weight-lattices", nall)
+    ctx.count("weight-lattices-accepted", nacc)
+
+
 LONG_EXTENTS = [13, 14, 16, 21, 27, 33, 40]
 
 
@@ -1060,6 +1358,15 @@ def run(ctx):
     ctx.count("long-lattices", nlong)
     for d in ARGFORM_BASES:
         argform_oracle(ctx, d)
+    ctx.rules.append(
+        "customised lattices, weight magnitude (oracle + history, exact entries, no Coq case): couplings 2^-30, 3e-10, 2e-9, 2^-27, 2^-60, 2^-200, "
+        "2^-1000, 2^-1022, 5e-324, 2^100, 2^1000, max double, inf (float64; the representable analogues for float32 / float16 / longdouble incl. "
+        "2^-5000 and the smallest extended subnormal / complex128 / complex64 with tiny imaginary or real part / Fraction and Python-int objects "
+        "down to 2^-2000 and up to 2^2000) x placement (one-sided against 0 / against -0.0, sign-flipped pair, against 1, against another "
+        "magnitude, symmetric, on the diagonal alone / cancelling, -0.0 entries, conjugate pair, directions differing in a tiny imaginary part) "
+        "x context (no / O(1) / huge / equally tiny symmetric couplings) x layout (C, Fortran, transposed view; nested lists); reference = "
+        "non-zero pattern of the exact entries; a refusal is counted, an accepted matrix must give exactly that pattern, symmetric, zero diagonal")
+    weight_sweep(ctx)
     ctx.log("implementation run and oracles done: %d cases" % len(cases))
     dis = ctx.cases("lattice", HEADER, cases)
     for i, dsc in dis[:8]:
